@@ -98,6 +98,10 @@ type hist struct {
 	slow     int
 	seg      bool
 	to0      bool
+	abortAt  int    // raw: 1 + index of the request after sending which the client closes the connection without reading (0: none)
+	cbPanic  int    // nbc: 1 + index of the request whose callback panics when it is invoked (0: none)
+	dialFail int    // nbc/nbcli: the first dialFail dial attempts of the client fail ...
+	dialKind string // ... with a refusal (a port nobody listens on) or a dial timeout
 	failAt   int    // nbx: index of the request whose body reader fails (its write fails mid-way)
 	cliEpoll string // epoll mode of the nbhttp client engine (= the cell's)
 	cut      int    // raw: index of the response that broke off because a closing request closed the conn over a backlog (-1: none)
@@ -361,6 +365,10 @@ func genHist(g *lp.Gen, cid int, thorough bool) {
 		genNbx(g, cid)
 		return
 	}
+	if g.Chance(1, 12) {
+		genAbort(g, cid)
+		return
+	}
 	n := 1 + g.Intn(8)
 	if g.Chance(1, 4) {
 		n = 1 + g.Intn(3)
@@ -381,7 +389,23 @@ func genHist(g *lp.Gen, cid int, thorough bool) {
 		return 0
 	}
 	to0 := kind == "nbc" && g.Chance(1, 6) // ClientConn.Timeout == 0: no deadline configured
-	g.P("K %d %s sched=%s slow=%d seg=%d to0=%d", cid, kind, sched.String(), slow, b(seg), b(to0))
+	// client-side error injection: the first dial attempts of the ClientConn / Client fail (refused or timed out),
+	// then the same ClientConn (the pool hands it out again) reaches the live server
+	dialFail, dialKind := 0, "refused"
+	if (kind == "nbc" || kind == "nbcli") && g.Chance(1, 6) {
+		dialFail = 1 + g.Intn(2)
+		dialKind = g.Pick("refused", "refused", "timeout")
+		if n < dialFail+1 {
+			n = dialFail + 1
+		}
+	}
+	// user code that panics: the callback of one request panics when it is invoked (ClientConn kinds; the response
+	// jobs run under the recover wrapper of Conn.execute, so the client goes on)
+	cbPanic := 0
+	if kind == "nbc" && g.Chance(1, 7) {
+		cbPanic = 1 + dialFail + g.Intn(n-dialFail)
+	}
+	g.P("K %d %s sched=%s slow=%d seg=%d to0=%d dialfail=%d dialkind=%s cbpanic=%d", cid, kind, sched.String(), slow, b(seg), b(to0), dialFail, dialKind, cbPanic)
 	rid := 0
 	closedFor := false
 	// RFC 7230 6.6 reset hazard: a server that closes while requests are still unread resets the connection,
@@ -397,6 +421,14 @@ func genHist(g *lp.Gen, cid int, thorough bool) {
 		}
 		if afterClose && (inflight > 16384 || slow > 0) {
 			r.sync = true
+		}
+		if dialFail > 0 {
+			if i < dialFail {
+				r.conn = nil // never reaches a server; keep the history going
+			}
+			if kind == "nbcli" || i <= dialFail {
+				r.sync = true // one exchange at a time, so that the failing dial attempts are those of the first requests
+			}
 		}
 		if r.sync {
 			inflight = 0
@@ -439,7 +471,7 @@ func genHist(g *lp.Gen, cid int, thorough bool) {
 	if !closedFor {
 		// sentinel: every history ends with a closing request, so "kept open" is observed through the next answer
 		s := &reqSpec{rid: rid, v: "11", conn: []string{"close"}, method: "GET", st: 200, sz: g.Intn(50), fr: g.Pick("cl", "au"), w: 1, sync: g.Chance(1, 2)}
-		if afterClose && (inflight > 16384 || slow > 0) {
+		if afterClose && (inflight > 16384 || slow > 0) || (dialFail > 0 && kind == "nbcli") {
 			s.sync = true
 		}
 		emitQ(g, cid, s)
@@ -459,6 +491,23 @@ func genNbx(g *lp.Gen, cid int) {
 		}
 		emitQ(g, cid, r)
 		rid++
+	}
+}
+
+// genAbort: k exchanges, then a request whose answer the client does not wait for (it closes the connection at once)
+func genAbort(g *lp.Gen, cid int) {
+	k := g.Intn(3)
+	g.P("K %d raw sched=psfw slow=0 seg=0 to0=0 abort=%d", cid, k+1)
+	for i := 0; i <= k; i++ {
+		r := &reqSpec{rid: i, v: "11", method: g.Pick("GET", "GET", "POST"), st: 200, sz: g.PickInt(0, 40, 900, 5000, 66000, 70000), fr: g.Pick("cl", "au", "ch"), w: 1 + g.Intn(3), sync: true}
+		if r.method == "POST" {
+			r.rb = g.PickInt(0, 300, 5000)
+		}
+		if i == k {
+			r.d = 4 + g.Intn(8)
+			r.fl = g.Chance(1, 4) && r.sz > 0
+		}
+		emitQ(g, cid, r)
 	}
 }
 
@@ -590,6 +639,48 @@ var served sync.Map
 
 func servedKey(cid, rid int) string { return strconv.Itoa(cid) + "/" + strconv.Itoa(rid) }
 
+// handlerLog: per history, the request ids in the order their handlers were entered (server side)
+var (
+	hlogMu sync.Mutex
+	hlog   = map[int][]int{}
+)
+
+func hlogAdd(cid, rid int) {
+	hlogMu.Lock()
+	hlog[cid] = append(hlog[cid], rid)
+	hlogMu.Unlock()
+}
+
+func hlogTake(cid int) []int {
+	hlogMu.Lock()
+	defer hlogMu.Unlock()
+	l := hlog[cid]
+	delete(hlog, cid)
+	return l
+}
+
+// checkHandlers: each handler at most once; on a single connection (raw, nbc, nbx) in request order
+func (h *hist) checkHandlers() {
+	l := hlogTake(h.cid)
+	seen := map[int]int{}
+	for _, rid := range l {
+		seen[rid]++
+	}
+	for rid, n := range seen {
+		if n > 1 {
+			h.fail(false, "c10-order", "handler of request %d ran %d times", rid, n)
+		}
+	}
+	if h.kind == "raw" || h.kind == "nbc" {
+		for i := 1; i < len(l); i++ {
+			if l[i] <= l[i-1] {
+				h.fail(false, "c10-order", "handlers ran out of request order on one connection: %v", l)
+				break
+			}
+		}
+	}
+}
+
 func handler(w http.ResponseWriter, r *http.Request) {
 	// /c/<cid>/r/<rid>?st=&sz=&fr=&w=&fl=&d=
 	p := strings.Split(r.URL.Path, "/")
@@ -602,6 +693,7 @@ func handler(w http.ResponseWriter, r *http.Request) {
 	q := r.URL.Query()
 	geti := func(k string) int { n, _ := strconv.Atoi(q.Get(k)); return n }
 	st, sz, fr, nw, fl, d := geti("st"), geti("sz"), q.Get("fr"), geti("w"), q.Get("fl") == "1", geti("d")
+	hlogAdd(cid, rid)
 	var rb []byte
 	if r.Body != nil {
 		rb, _ = io.ReadAll(r.Body)
@@ -965,7 +1057,60 @@ func isTimeout(err error) bool {
 	return errors.As(err, &ne) && ne.Timeout()
 }
 
+// runRawAbort: a client that gives up.  The requests in front of the aborted one are exchanged one at a time; then the
+// client sends the last request — whose handler takes a few milliseconds — and closes the connection at once, so the
+// server finds the connection gone when it writes the answer (the "writing the response failed" branch of
+// flushResponse).  Nothing can be observed on this connection afterwards; what such a failure does to the server's
+// pooled objects shows on the connections that run concurrently in the same case.
+func (s *server) runRawAbort(h *hist) {
+	conn, err := s.dialRaw()
+	if err != nil {
+		h.fail(true, "c10-order", "dial failed: %v", err)
+		return
+	}
+	tee := &teeConn{Conn: conn}
+	defer conn.Close()
+	br := bufio.NewReaderSize(tee, 16384)
+	k := h.abortAt - 1
+	for i, r := range h.reqs {
+		res := h.res[r.rid]
+		res.closed = "0"
+		_ = conn.SetDeadline(time.Now().Add(ioTimeout))
+		if _, err := conn.Write(s.rawRequest(h.cid, r)); err != nil {
+			h.fail(true, "c10-order", "write of request %d failed: %v", r.rid, err)
+			return
+		}
+		if i >= k {
+			_ = conn.Close()
+			break
+		}
+		resp, err := http.ReadResponse(br, &http.Request{Method: r.method})
+		if err != nil {
+			h.fail(isTimeout(err), "c10-order", "no response to request %d: %v", r.rid, err)
+			return
+		}
+		body, err := io.ReadAll(resp.Body)
+		_ = resp.Body.Close()
+		if err != nil {
+			h.fail(isTimeout(err), "c10-order", "response to request %d broke off: %v", r.rid, err)
+			return
+		}
+		h.checkResponse(r, resp.StatusCode, resp.Header, body, res)
+		if resp.StatusCode != r.st {
+			h.fail(false, "c10-order", "response to request %d has status %d, handler set %d", r.rid, resp.StatusCode, r.st)
+		}
+	}
+	time.Sleep(time.Duration(h.reqs[len(h.reqs)-1].d+3) * time.Millisecond) // let the server run into the closed connection
+	tee.mu.Lock()
+	h.scanForeign(tee.buf.Bytes())
+	tee.mu.Unlock()
+}
+
 func (s *server) runRaw(h *hist) {
+	if h.abortAt > 0 {
+		s.runRawAbort(h)
+		return
+	}
 	conn, err := s.dialRaw()
 	if err != nil {
 		h.fail(true, "c10-order", "dial failed: %v", err)
@@ -1071,7 +1216,11 @@ func (s *server) runRaw(h *hist) {
 	closed := false
 	if endErr == nil {
 		// all requests answered: the last one is a closing request by construction — expect EOF
-		_ = conn.SetReadDeadline(time.Now().Add(8 * time.Second))
+		closeWait := 8 * time.Second
+		if degraded {
+			closeWait = 3 * time.Second
+		}
+		_ = conn.SetReadDeadline(time.Now().Add(closeWait))
 		b, err := br.Peek(1)
 		switch {
 		case err == nil:
@@ -1203,10 +1352,113 @@ type cbRec struct {
 	hdr  http.Header
 	body []byte
 	err  error
+	mu   sync.Mutex
+	late []string // what later invocations (there must be none) were handed
+}
+
+// cbFunc: the callback of one request.  The first invocation is the result; every further one is recorded.
+func cbFunc(rec *cbRec, done *int32, progress chan struct{}) func(res *http.Response, conn net.Conn, err error) {
+	return cbFuncP(rec, done, progress, false)
+}
+
+// cbFuncP: with panics == true the callback panics at the end of its first invocation (user code that panics: the
+// invocation counts, and it must not make the client invoke this or any other callback a second time)
+func cbFuncP(rec *cbRec, done *int32, progress chan struct{}, panics bool) func(res *http.Response, conn net.Conn, err error) {
+	return func(res *http.Response, conn net.Conn, err error) {
+		first := atomic.LoadInt32(&rec.n) == 0
+		defer func() {
+			if panics && first {
+				panic("he2e: this callback panics")
+			}
+		}()
+		if atomic.AddInt32(&rec.n, 1) == 1 {
+			rec.err = err
+			if err == nil && res != nil {
+				rec.st = res.StatusCode
+				rec.hdr = res.Header.Clone()
+				if res.Body != nil {
+					rec.body, _ = io.ReadAll(res.Body)
+				}
+			} else if err == nil {
+				rec.err = errors.New("nil response and nil error")
+			}
+			atomic.AddInt32(done, 1)
+		} else {
+			what := "an error"
+			if err == nil && res != nil {
+				what = "a response tagged " + res.Header.Get("X-Tag")
+			}
+			rec.mu.Lock()
+			rec.late = append(rec.late, what)
+			rec.mu.Unlock()
+		}
+		select {
+		case progress <- struct{}{}:
+		default:
+		}
+	}
+}
+
+// again: true as soon as some callback was invoked more than once (no point in waiting for the rest)
+func again(recs []*cbRec) bool {
+	for _, r := range recs {
+		if atomic.LoadInt32(&r.n) > 1 {
+			return true
+		}
+	}
+	return false
+}
+
+// deadAddr: a loopback port nobody listens on (reserved once, then released)
+var (
+	deadOnce sync.Once
+	deadA    string
+)
+
+func deadAddr() string {
+	deadOnce.Do(func() {
+		ln, err := net.Listen("tcp", "127.0.0.1:0")
+		if err != nil {
+			deadA = "127.0.0.1:1"
+			return
+		}
+		deadA = ln.Addr().String()
+		_ = ln.Close()
+	})
+	return deadA
+}
+
+type dialTimeoutErr struct{}
+
+func (dialTimeoutErr) Error() string   { return "i/o timeout" }
+func (dialTimeoutErr) Timeout() bool   { return true }
+func (dialTimeoutErr) Temporary() bool { return true }
+
+// dialer: the public Dial hook of ClientConn / Client.  The first h.dialFail attempts fail — with a genuine
+// ECONNREFUSED from a dead port or with a dial timeout —, later ones reach the address asked for.
+func (h *hist) dialer() func(network, addr string) (net.Conn, error) {
+	if h.dialFail <= 0 {
+		return nil
+	}
+	var n int32
+	return func(network, addr string) (net.Conn, error) {
+		if int(atomic.AddInt32(&n, 1)) <= h.dialFail {
+			if h.dialKind == "timeout" {
+				return nil, &net.OpError{Op: "dial", Net: network, Err: dialTimeoutErr{}}
+			}
+			c, err := net.DialTimeout(network, deadAddr(), 3*time.Second)
+			if err == nil { // somebody took the port meanwhile
+				_ = c.Close()
+				err = &net.OpError{Op: "dial", Net: network, Err: errors.New("connection refused (synthetic)")}
+			}
+			return nil, err
+		}
+		return net.DialTimeout(network, addr, 10*time.Second)
+	}
 }
 
 func (s *server) runNbc(h *hist) {
-	cc := &nbhttp.ClientConn{Engine: s.cli, Timeout: 40 * time.Second}
+	cc := &nbhttp.ClientConn{Engine: s.cli, Timeout: 40 * time.Second, Dial: h.dialer()}
 	if h.to0 {
 		cc.Timeout = 0
 	}
@@ -1234,28 +1486,13 @@ func (s *server) runNbc(h *hist) {
 		}
 		{
 			rec := recs[i]
-			cc.Do(s.httpRequest(h.cid, r), func(res *http.Response, conn net.Conn, err error) {
-				if atomic.AddInt32(&rec.n, 1) == 1 {
-					rec.err = err
-					if err == nil && res != nil {
-						rec.st = res.StatusCode
-						rec.hdr = res.Header.Clone()
-						if res.Body != nil {
-							rec.body, _ = io.ReadAll(res.Body)
-						}
-					} else if err == nil {
-						rec.err = errors.New("nil response and nil error")
-					}
-					atomic.AddInt32(&done, 1)
-				}
-				progress <- struct{}{}
-			})
+			cc.Do(s.httpRequest(h.cid, r), cbFuncP(rec, &done, progress, h.cbPanic == i+1))
 		}
 	}
 collect:
 	{
 		dl := time.After(ioTimeout)
-		for int(atomic.LoadInt32(&done)) < n && !h.soft {
+		for int(atomic.LoadInt32(&done)) < n && !h.soft && !again(recs) {
 			select {
 			case <-progress:
 			case <-dl:
@@ -1265,9 +1502,12 @@ collect:
 		}
 	}
 closeit:
-	cc.Close()
+	if again(recs) {
+		time.Sleep(300 * time.Millisecond) // let the rest of the damage show (e.g. the response going to a stale callback)
+	}
+	h.guarded("ClientConn.Close", cc.Close)
 	time.Sleep(2 * time.Millisecond) // a late second invocation would show up in the counters below
-	h.finishCallbacks(recs, true)
+	h.finishCallbacksAt(recs, true, h.dialFail)
 }
 
 func (h *hist) finishCallbacks(recs []*cbRec, ordered bool) { h.finishCallbacksAt(recs, ordered, 0) }
@@ -1330,9 +1570,19 @@ func (h *hist) finishCallbacksAt(recs []*cbRec, ordered bool, from int) {
 		res.closed = "x"
 		res.cb = int(atomic.LoadInt32(&rec.n))
 		if res.cb != 1 {
-			h.fail(res.cb == 0, "c10-client-callback", "callback of request %d invoked %d times", r.rid, res.cb)
+			rec.mu.Lock()
+			late := strings.Join(rec.late, "; ")
+			rec.mu.Unlock()
+			if late != "" {
+				late = " (further invocations got: " + late + ")"
+			}
+			h.fail(res.cb == 0 && !again(recs), "c10-client-callback", "callback of request %d invoked %d times%s", r.rid, res.cb, late)
 		}
 		if i < from {
+			if res.cb >= 1 && rec.err == nil {
+				h.fail(false, "c10-client-callback", "request %d, which never reached a server (dial failed / its connection was dropped), was handed a response tagged %q",
+					r.rid, rec.hdr.Get("X-Tag"))
+			}
 			continue
 		}
 		if res.cb >= 1 && rec.err == nil {
@@ -1366,7 +1616,7 @@ func (h *hist) checkResponseCB(r *reqSpec, rec *cbRec, res *result) {
 }
 
 func (s *server) runNbcli(h *hist) {
-	cl := &nbhttp.Client{Engine: s.cli, Timeout: 40 * time.Second, MaxConnsPerHost: 3}
+	cl := &nbhttp.Client{Engine: s.cli, Timeout: 40 * time.Second, MaxConnsPerHost: 3, Dial: h.dialer()}
 	if s.cell.tls {
 		cl.TLSClientConfig = cliTLS()
 	}
@@ -1391,28 +1641,13 @@ func (s *server) runNbcli(h *hist) {
 		}
 		{
 			rec := recs[i]
-			cl.Do(s.httpRequest(h.cid, r), func(res *http.Response, conn net.Conn, err error) {
-				if atomic.AddInt32(&rec.n, 1) == 1 {
-					rec.err = err
-					if err == nil && res != nil {
-						rec.st = res.StatusCode
-						rec.hdr = res.Header.Clone()
-						if res.Body != nil {
-							rec.body, _ = io.ReadAll(res.Body)
-						}
-					} else if err == nil {
-						rec.err = errors.New("nil response and nil error")
-					}
-					atomic.AddInt32(&done, 1)
-				}
-				progress <- struct{}{}
-			})
+			cl.Do(s.httpRequest(h.cid, r), cbFunc(rec, &done, progress))
 		}
 	}
 collect:
 	{
 		dl := time.After(ioTimeout)
-		for int(atomic.LoadInt32(&done)) < n && !h.soft {
+		for int(atomic.LoadInt32(&done)) < n && !h.soft && !again(recs) {
 			select {
 			case <-progress:
 			case <-dl:
@@ -1422,9 +1657,12 @@ collect:
 		}
 	}
 closeit:
-	cl.Close()
+	if again(recs) {
+		time.Sleep(300 * time.Millisecond)
+	}
+	h.guarded("Client.Close", cl.Close)
 	time.Sleep(2 * time.Millisecond)
-	h.finishCallbacks(recs, false)
+	h.finishCallbacksAt(recs, false, h.dialFail)
 }
 
 // ---------------------------------------------------------------- nbhttp ClientConn under a forced schedule
@@ -1518,22 +1756,7 @@ func (s *server) runNbx(h *hist) {
 	}
 	do := func(i int, req *http.Request) {
 		rec := recs[i]
-		cc.Do(req, func(res *http.Response, conn net.Conn, err error) {
-			if atomic.AddInt32(&rec.n, 1) == 1 {
-				rec.err = err
-				if err == nil && res != nil {
-					rec.st = res.StatusCode
-					rec.hdr = res.Header.Clone()
-					if res.Body != nil {
-						rec.body, _ = io.ReadAll(res.Body)
-					}
-				} else if err == nil {
-					rec.err = errors.New("nil response and nil error")
-				}
-				atomic.AddInt32(&done, 1)
-			}
-			progress <- struct{}{}
-		})
+		cc.Do(req, cbFunc(rec, &done, progress))
 	}
 	for i, r := range h.reqs {
 		switch {
@@ -1567,7 +1790,7 @@ func (s *server) runNbx(h *hist) {
 		}
 	}
 closeit:
-	cc.Close()
+	h.guarded("ClientConn.Close", cc.Close)
 	time.Sleep(2 * time.Millisecond)
 	// requests up to the failing one must have got an error, the later ones are a fresh pipelined history
 	for i := 0; i <= h.failAt && i < n; i++ {
@@ -1584,6 +1807,12 @@ closeit:
 }
 
 // ---------------------------------------------------------------- executor
+
+// degraded: set once a case of this process has reported an oracle failure
+var degraded bool
+
+// maxAttempts: re-runs of a case whose only failures are of the timing kind
+var maxAttempts = 2
 
 type caseT struct {
 	lines []string // original op lines of the case, in order
@@ -1617,7 +1846,7 @@ func parseCase(lines []string) (*caseT, error) {
 				return nil, fmt.Errorf("bad K line")
 			}
 			cid, _ := strconv.Atoi(f[1])
-			h := &hist{cid: cid, kind: f[2], slow: kvi(f, "slow"), seg: kv(f, "seg") == "1", to0: kv(f, "to0") == "1", failAt: kvi(f, "fail"), res: map[int]*result{}}
+			h := &hist{cid: cid, kind: f[2], slow: kvi(f, "slow"), seg: kv(f, "seg") == "1", to0: kv(f, "to0") == "1", failAt: kvi(f, "fail"), dialFail: kvi(f, "dialfail"), dialKind: kv(f, "dialkind"), cbPanic: kvi(f, "cbpanic"), abortAt: kvi(f, "abort"), res: map[int]*result{}}
 			switch h.kind {
 			case "raw", "std", "nbc", "nbcli", "nbx":
 			default:
@@ -1643,14 +1872,15 @@ func parseCase(lines []string) (*caseT, error) {
 	return c, nil
 }
 
-func (c *caseT) reset() {
-	for _, h := range c.order {
-		h.res = map[int]*result{}
-		for _, r := range h.reqs {
-			h.res[r.rid] = &result{cb: -1}
-		}
-		h.fails, h.soft, h.got, h.cut = nil, false, 0, -1
+// freshHist: a copy of the static part of h with empty results — every attempt runs on its own copy, so a client
+// call that never returns (and the goroutine stuck in it) cannot touch what a later attempt or the printer reads
+func freshHist(h *hist, cliEpoll string) *hist {
+	cl := &hist{cid: h.cid, kind: h.kind, slow: h.slow, seg: h.seg, to0: h.to0, dialFail: h.dialFail, dialKind: h.dialKind, cbPanic: h.cbPanic, abortAt: h.abortAt,
+		failAt: h.failAt, reqs: h.reqs, res: map[int]*result{}, cut: -1, cliEpoll: cliEpoll}
+	for _, r := range h.reqs {
+		cl.res[r.rid] = &result{cb: -1}
 	}
+	return cl
 }
 
 func (c *caseT) runOnce() error {
@@ -1658,21 +1888,28 @@ func (c *caseT) runOnce() error {
 	if err != nil {
 		return err
 	}
-	c.reset()
-	var wg sync.WaitGroup
+	type run struct {
+		h, clone *hist
+		done     chan struct{}
+	}
+	var runs []*run
 	for _, h := range c.order {
+		cl := freshHist(h, c.cell.epoll)
 		if len(h.reqs) == 0 {
+			*h = *cl
 			continue
 		}
-		wg.Add(1)
-		h.cliEpoll = c.cell.epoll
-		go func(h *hist) {
-			defer wg.Done()
+		r := &run{h: h, clone: cl, done: make(chan struct{})}
+		runs = append(runs, r)
+		hlogTake(h.cid) // entries of an earlier attempt
+		go func(h *hist, done chan struct{}) {
+			defer close(done)
 			defer func() {
 				if e := recover(); e != nil {
 					h.fail(false, "c10-order", "harness client panicked: %v", e)
 				}
 			}()
+			defer h.checkHandlers()
 			switch h.kind {
 			case "raw":
 				s.runRaw(h)
@@ -1685,10 +1922,43 @@ func (c *caseT) runOnce() error {
 			case "nbx":
 				s.runNbx(h)
 			}
-		}(h)
+		}(cl, r.done)
 	}
-	wg.Wait()
+	// watchdog: every client step has its own time-out, so a history that is still running after several of them
+	// sits in a call of the code under test that does not return
+	budget := 6 * ioTimeout
+	timer := time.NewTimer(budget)
+	defer timer.Stop()
+	expired := false
+	for _, r := range runs {
+		if !expired {
+			select {
+			case <-r.done:
+			case <-timer.C:
+				expired = true
+			}
+		}
+		select {
+		case <-r.done:
+			*r.h = *r.clone
+		default:
+			ph := freshHist(r.h, c.cell.epoll)
+			ph.fail(false, "c10-order", "watchdog: the history did not finish within %v — a client call into the code under test does not return", budget)
+			*r.h = *ph
+		}
+	}
 	return nil
+}
+
+// guarded: run f (a Close of the code under test) but do not wait for it forever
+func (h *hist) guarded(what string, f func()) {
+	done := make(chan struct{})
+	go func() { defer close(done); f() }()
+	select {
+	case <-done:
+	case <-time.After(5 * time.Second):
+		h.fail(false, "c10-client-callback", "%s did not return within 5s", what)
+	}
 }
 
 func sizeClass(n int) string {
@@ -1716,6 +1986,9 @@ func runCase(e *lp.Exec, lines []string) {
 		return
 	}
 	for attempt := 0; ; attempt++ {
+		if degraded {
+			attempt = maxAttempts // a failing input is already on record: no re-runs, short time-outs (see below)
+		}
 		if err := c.runOnce(); err != nil {
 			for _, l := range lines {
 				e.P("> %s", l)
@@ -1735,7 +2008,7 @@ func runCase(e *lp.Exec, lines []string) {
 		}
 		// timing-type failures (timeouts on a loaded machine) are re-run before they are reported;
 		// content failures (order, foreign bytes, wrong close, callback count) are real events and reported at once
-		if !soft || hard || attempt >= 2 {
+		if !soft || hard || attempt >= maxAttempts {
 			break
 		}
 		e.Count("retries", "case")
@@ -1818,6 +2091,14 @@ func runCase(e *lp.Exec, lines []string) {
 	for _, h := range c.order {
 		for _, f := range h.fails {
 			e.P("! %s", f)
+			if !degraded && !strings.Contains(f, " class=") { // classified reports are the recorded known findings
+				// On a tree that fails, the remaining cases of this process are still run and reported, but a stall
+				// no longer costs 3 x 25 s per case: the verdict is in, the rest is detail.
+				degraded = true
+				if ioTimeout > 5*time.Second {
+					ioTimeout = 5 * time.Second
+				}
+			}
 		}
 	}
 	e.Key(key.String(), nontrivial)
@@ -1852,6 +2133,23 @@ func (quietLogger) Error(f string, v ...interface{}) {
 func exec(e *lp.Exec) {
 	logging.SetLogger(quietLogger{})
 	defer stopServers()
+	var lines []string
+	ncases := 0
+	for e.In.Scan() {
+		line := e.In.Text()
+		if strings.TrimSpace(line) == "" {
+			continue
+		}
+		if strings.HasPrefix(line, "C ") {
+			ncases++
+		}
+		lines = append(lines, line)
+	}
+	if ncases <= 1 && ioTimeout > 8*time.Second {
+		// a single case is a replay, a shrinking step or a known-finding witness: short time-outs, one re-run
+		ioTimeout = 8 * time.Second
+		maxAttempts = 1
+	}
 	var cur []string
 	flush := func() {
 		if len(cur) > 0 {
@@ -1859,11 +2157,7 @@ func exec(e *lp.Exec) {
 			cur = nil
 		}
 	}
-	for e.In.Scan() {
-		line := e.In.Text()
-		if strings.TrimSpace(line) == "" {
-			continue
-		}
+	for _, line := range lines {
 		if strings.HasPrefix(line, "C ") {
 			flush()
 		}
